@@ -78,6 +78,66 @@ def gen_case(rng, tier):
     return {"pre": pre, "pre_m": pre_m, "sessions": sessions, "sess_m": sess_m, "engine": rng.choice(["disk", "disk", "mem"]), "mode": mode, "opts": opts, "ticks": ticks}
 
 
+def gen_held(rng):
+    """one statement per session, started while the background compactor is HELD at one of its schedule points (possibly inside the
+    locked section of a table), then the compactor is released step by step: the statements overlap a compaction for certain"""
+    key = [0]
+
+    def fresh(n):
+        out = list(range(key[0] + 1, key[0] + n + 1))
+        key[0] += n
+        return out
+    pre, pre_m, inserted = [], [], {1: [], 2: []}
+    for t in (1, 2):
+        pre.append(f"create table t{t}(a int)")
+        pre_m.append(("create", t))
+        for _ in range(rng.randint(2, 3)):
+            ks = fresh(rng.randint(1, 4))
+            inserted[t] += ks
+            pre.append(f"insert into t{t} values " + ", ".join(f"({x})" for x in ks))
+            pre_m.append(("insert", t, ks))
+    sessions, sess_m = [], []
+    claimed = set()
+    for _ in range(rng.randint(2, 4)):
+        t = rng.choice([1, 2])
+        r = rng.random()
+        if r < 0.3:
+            ks = fresh(rng.randint(1, 3))
+            sessions.append([f"insert into t{t} values " + ", ".join(f"({x})" for x in ks)])
+            sess_m.append([("insert", t, ks)])
+        elif r < 0.8:
+            pool = [x for x in inserted[t] if x not in claimed]
+            ks = rng.sample(pool, min(len(pool), rng.randint(1, 2))) if pool else [999999]
+            claimed |= set(ks)
+            sessions.append([f"delete from t{t} where a in ({', '.join(map(str, ks))})"])
+            sess_m.append([("delete", t, ks)])
+        else:
+            sessions.append([f"select count(*) from t{t}"])
+            sess_m.append([("count", t)])
+    return {"pre": pre, "pre_m": pre_m, "sessions": sessions, "sess_m": sess_m, "engine": "disk", "mode": {"atomic": True}, "opts": {}, "ticks": 0,
+            "held": rng.randint(0, 11)}
+
+
+def held_steps(c):
+    steps = [{"sql": s} for s in c["pre"]] + [{"gate": ["compactor."]}, {"tick": 1000}] + [{"release": "compactor."} for _ in range(c["held"])]
+    steps += [{"spawn": {"name": f"s{i}", "sql": ss[0]}, "idle_ms": 300, "wait_ms": 3000} for i, ss in enumerate(c["sessions"])]
+    steps += [{"release": "compactor."} for _ in range(14)] + [{"ungate": True}]
+    steps += [{"join": f"s{i}", "timeout_ms": 6000} for i in range(len(c["sessions"]))]
+    steps += [{"sql": f"select a from t{t}"} for t in (1, 2)] + [{"reopen": True}] + [{"sql": f"select a from t{t}"} for t in (1, 2)]
+    return steps
+
+
+def held_view(c, o):
+    """the outputs of a held-compactor script in the layout of a `sessions` script"""
+    need = len(held_steps(c))
+    if not isinstance(o, list) or len(o) < need:
+        return o
+    npre, k = len(c["pre"]), len(c["sessions"])
+    joins = o[need - 5 - k: need - 5]
+    c["held_at"] = (o[npre + 1 + c["held"]] or {}).get("parked")
+    return o[:npre] + [{"sessions": [[{"deadlock": True} if x.get("pending") else x] for x in joins]}] + o[need - 5:]
+
+
 def sessions_big_table(sess_m):
     for ms in sess_m:
         for m in ms:
@@ -178,18 +238,29 @@ def run(R, only=None):
     R.prove()
     build_harness()
     n = 200 if R.tier == "quick" else 3000
-    cases = only or [gen_case(R.rng, R.tier) for _ in range(n)]
+    cases = only or ([gen_case(R.rng, R.tier) for _ in range(n)] + [gen_held(R.rng) for _ in range(60 if R.tier == "quick" else 600)])
     jobs = []
     for c in cases:
+        if "held" in c:
+            jobs.append({"engine": "disk", "atomic": True, "steps": held_steps(c)})
+            continue
         steps = [{"sql": s} for s in c["pre"]] + [{"sessions": c["sessions"], "timeout_ms": 60000, "compactor_ticks": c.get("ticks", 0)}] + \
             [{"sql": f"select a from t{t}"} for t in (1, 2)] + [{"reopen": True}] + [{"sql": f"select a from t{t}"} for t in (1, 2)]
         jobs.append({"engine": c["engine"], **c["mode"], **c["opts"], "steps": steps})
     outs = run_harness("sql", jobs, jobs=8, timeout=3000)
     terms, usable = [], []
-    stats = {"explained": 0, "aborted_statements": 0, "single_thread": 0, "multi_thread": 0}
+    stats = {"explained": 0, "aborted_statements": 0, "single_thread": 0, "multi_thread": 0, "held_compactor": 0, "held_at": {}}
     for c, j, o in zip(cases, jobs, outs):
         rep = {"kind": "sql-script", "case": j, "sessions_case": c}
         npre = len(c["pre"])
+        need = len(j["steps"])
+        if "held" in c:
+            o = held_view(c, o)
+            need = npre + 6 if isinstance(o, list) and len(o) == npre + 6 else need
+            stats["held_compactor"] += 1
+            for p in c.get("held_at") or ["(pass over)"]:
+                pt = p.split(":")[0]
+                stats["held_at"][pt] = stats["held_at"].get(pt, 0) + 1
         creates = [(si, m[1]) for si, ms in enumerate(c["sess_m"]) for m in ms if m[0] == "create"]
         drops = [(si, m[1]) for si, ms in enumerate(c["sess_m"]) for m in ms if m[0] == "drop"]
         kf = None
@@ -199,7 +270,7 @@ def run(R, only=None):
             dels = [(si, m[1], set(m[2])) for si, ms in enumerate(c["sess_m"]) for m in ms if m[0] == "delete"]
             if any(a[0] != b[0] and a[1] == b[1] and a[2] & b[2] for a in dels for b in dels):
                 kf = "KF_C10_concurrent_delete_double_count"
-        if not isinstance(o, list) or len(o) < len(j["steps"]):
+        if not isinstance(o, list) or len(o) < need:
             R.property_fails(kf, f"C10 the process aborted during concurrent sessions ({c['mode']}): {json.dumps(o[-1] if isinstance(o, list) and o else o)[:200]}", rep)
             continue
         if any("ok" not in x for x in o[:npre]):
@@ -268,7 +339,8 @@ def run(R, only=None):
         "evaluations": len(cases), "distinct_nontrivial": stats["explained"],
         "rule": "2-3 sessions of 2-5 statements each over two tables (CREATE / DROP TABLE of the same names, INSERT of fresh keys, DELETE by key list, SELECT "
                 "count(*)), 25% with one 3000-row INSERT on a 4000-byte row-set size and sessions polling count(*) meanwhile; both engines; run on a single "
-                "thread (tasks interleave at every await) or on a 4-thread runtime; afterwards SELECT of both tables, reopen, SELECT again; a total order "
+                "thread (tasks interleave at every await) or on a 4-thread runtime; plus held-compactor schedules: 2-4 single-statement sessions started while "
+                "the compactor is parked at one of its schedule points (0-11 releases into its pass over two tables with 2-3 row-sets), then released; afterwards SELECT of both tables, reopen, SELECT again; a total order "
                 "is searched (memoised DFS) and validated inside Coq",
         "samples": [cases[0]["sessions"]], "outcomes": stats, "model_vs_impl_disagreements": len(failing),
     })
